@@ -904,6 +904,12 @@ def _idents_defs(se, a, kw):
     return ops.mk_setv(OBJ("TagLike"), ops.UF("idents_defs", z3.IntSort(), z3.ArraySort(z3.IntSort(), z3.BoolSort()))(a[0].t))
 
 
+@specfun("py_eval")
+def _py_eval(se, a, kw):
+    """the value of eval(text): some value determined by the text (uninterpreted)"""
+    return V(ANY, ops.UF("py_eval", z3.StringSort(), z3.IntSort())(a[0].t))
+
+
 @specfun("dyn_isinstance")
 def _dyn_isinstance(se, a, kw):
     """isinstance(x, <classes>) of an object whose schema class stands for several real classes, as the engine models it"""
